@@ -233,6 +233,7 @@ func runEpisode(t *rapid.T, w *world, label string, hk *hook) epResult {
 			calls[k].now = now
 		}
 	}
+	lastNow := now
 	now = calls[0].now
 	rf := newRef(w.chainID, period, drift, num, den)
 
@@ -457,7 +458,8 @@ func runEpisode(t *rapid.T, w *world, label string, hk *hook) epResult {
 	maxH := L + 3
 
 	// ---- NewClient
-	st := dbs.New(dbm.NewMemDB(), w.chainID)
+	db := dbm.NewMemDB() // survives the client lifetimes of this episode (a "process restart" re-opens the store on it)
+	st := dbs.New(db, w.chainID)
 	provs := make([]provider.Provider, 0, nW)
 	for _, n := range ep.nodes[1:] {
 		provs = append(provs, n)
@@ -523,346 +525,514 @@ func runEpisode(t *rapid.T, w *world, label string, hk *hook) epResult {
 	verdictMixed := false
 	forgedServed := false
 
-	for k := 1; initErr == nil && k <= len(calls); k++ {
-		c := calls[k-1]
-		ep.mu.Lock()
-		ep.call = k
-		logStart := len(ep.log)
-		evStart := len(ep.evs)
-		ep.mu.Unlock()
-		before := stored
-		firstBefore, lastBefore := minmax(before)
+	callNo := 0
+	lifeDesc := ""
+	runCalls := func(prim *node, calls []apiCall) {
+		for _, c := range calls {
+			callNo++
+			k := callNo
+			ep.mu.Lock()
+			ep.call = k
+			logStart := len(ep.log)
+			evStart := len(ep.evs)
+			ep.mu.Unlock()
+			before := stored
+			firstBefore, lastBefore := minmax(before)
 
-		var err error
-		var ret *types.LightBlock
-		var hdr *types.Header
-		f := func() { ret, err = cl.VerifyLightBlockAtHeight(ep.ctx, c.height, c.now) }
-		switch c.kind {
-		case "update":
-			f = func() { ret, err = cl.Update(ep.ctx, c.now) }
-		case "header", "header-genuine":
-			src := primary.view(c.height)
-			if c.kind == "header-genuine" || src == nil || src.SignedHeader == nil || src.Header == nil {
-				src = w.g[c.height]
+			var err error
+			var ret *types.LightBlock
+			var hdr *types.Header
+			f := func() { ret, err = cl.VerifyLightBlockAtHeight(ep.ctx, c.height, c.now) }
+			switch c.kind {
+			case "update":
+				f = func() { ret, err = cl.Update(ep.ctx, c.now) }
+			case "header", "header-genuine":
+				src := prim.view(c.height)
+				if c.kind == "header-genuine" || src == nil || src.SignedHeader == nil || src.Header == nil {
+					src = w.g[c.height]
+				}
+				if src == nil {
+					src = w.g[L]
+				}
+				hdr = src.Header
+				f = func() { err = cl.VerifyHeader(ep.ctx, hdr, c.now) }
 			}
-			if src == nil {
-				src = w.g[L]
+			pv, hg := ep.run(f, order)
+			if pv != nil {
+				t.Fatalf("call %d (%s %d) panicked: %v", k, c.kind, c.height, pv)
 			}
-			hdr = src.Header
-			f = func() { err = cl.VerifyHeader(ep.ctx, hdr, c.now) }
+			if hg != nil {
+				t.Fatalf("call %d (%s %d): %s", k, c.kind, c.height, hg.what)
+			}
+			stored = scanStore(st, maxH)
+			if dup := primaryAmongWitnesses(cl); dup != "" {
+				// from here on the client would cross-check this provider against itself
+				if lib.IsKnown(findingPrimaryIsWitness) {
+					lib.ObservedKnown(findingPrimaryIsWitness)
+					lib.ExcludedByKnown(findingPrimaryIsWitness)
+					cls.add("known:primary-is-witness")
+					outcomes = append(outcomes, "primary-is-witness")
+					return
+				}
+				t.Fatalf("WITNESS RULE: after call %d (%s %d, err=%v) provider %s is the primary AND one of the witnesses: every later header is 'confirmed' by the provider that supplied it\nprimary=%s witnesses=%v",
+					k, c.kind, c.height, err, dup, pkind, wkinds)
+			}
+			ep.mu.Lock()
+			recs := append([]callRec(nil), ep.log[logStart:]...)
+			evs := append([]evRec(nil), ep.evs[evStart:]...)
+			ep.mu.Unlock()
+			U := universe()
+			desc := dumpRecs(recs) + lifeDesc + fmt.Sprintf("call %d %s(h=%d) mode=%s level=%d/%d now=T(%d)%+v period=%v drift=%v root=%d primary=%s witnesses=%v forks=%v -> err=%v",
+				k, c.kind, c.height, mode, num, den, L, c.now.Sub(w.T(L)), period, drift, r, pkind, wkinds, forkNotes, err)
+
+			// target height of this call
+			tH := c.height
+			if c.kind == "update" {
+				tH = 0
+				for _, rec := range recs {
+					if rec.origin == "main" && rec.height == 0 && rec.lb != nil {
+						tH = rec.lb.Height
+						break
+					}
+				}
+			} else if hdr != nil {
+				tH = hdr.Height
+			}
+
+			// ---- oracle 1: store soundness
+			var fresh []*types.LightBlock
+			for _, b := range stored {
+				if _, ok := trusted[hkey(b)]; !ok {
+					fresh = append(fresh, b)
+				}
+			}
+			sort.Slice(fresh, func(i, j int) bool { return fresh[i].Height < fresh[j].Height })
+			tl := make([]*types.LightBlock, 0, len(trusted))
+			for _, b := range trusted {
+				tl = append(tl, b)
+			}
+			sort.Slice(tl, func(i, j int) bool { return fullKey(tl[i]) < fullKey(tl[j]) })
+			for _, b := range fresh {
+				inU := false
+				for _, u := range U {
+					if hkey(u) == hkey(b) {
+						inU = true
+					}
+				}
+				if !inU {
+					t.Fatalf("SOUNDNESS: stored header %d/%X was never returned by any provider\n%s", b.Height, b.Hash(), desc)
+				}
+				reached := rf.reach(tl, U, c.now, hkey(b))
+				if _, ok := reached[hkey(b)]; !ok {
+					why := ""
+					for _, a := range tl {
+						if b.Height > a.Height {
+							why += fmt.Sprintf("\n  from trusted %d: %s", a.Height, rf.forward(a, b, c.now))
+						}
+					}
+					t.Fatalf("SOUNDNESS: header %d/%X (genuine=%v) is in the trusted store but no chain of valid verification steps leads to it from the trusted headers %v over the %d light blocks the providers returned%s\n%s",
+						b.Height, b.Hash(), isGenuine(b), heightsOf(tl), len(U), why, desc)
+				}
+				if !isGenuine(b) {
+					cls.add("forged-header-trusted-within-model")
+				}
+				if rf.ownQuorum(b) != nil {
+					cls.add("stored-commit-unverified(backwards)")
+				}
+			}
+
+			// ---- verdicts of the witnesses in this call (for classes)
+			pHashes := map[string]bool{}
+			for _, rec := range recs {
+				if rec.origin == "main" && rec.lb != nil && rec.lb.Height == tH {
+					pHashes[hkey(rec.lb)] = true
+				}
+				if rec.lb != nil && !isGenuine(rec.lb) {
+					forgedServed = true
+				}
+			}
+			verd := map[int]string{}
+			for _, rec := range recs {
+				if rec.origin != "compare" || rec.late {
+					continue
+				}
+				v := "err:" + errClass(rec.err)
+				if rec.lb != nil {
+					switch {
+					case rec.lb.Height != tH:
+						v = "other-height"
+					case pHashes[hkey(rec.lb)]:
+						v = "match"
+					default:
+						v = "conflict"
+					}
+				}
+				verd[rec.prov] = v
+			}
+			vs := map[string]bool{}
+			for _, v := range verd {
+				vs[v] = true
+				cls.add("verdict:" + v)
+			}
+			if len(vs) >= 2 {
+				verdictMixed = true
+			}
+			for _, rec := range recs {
+				if rec.origin == "findprimary" {
+					cls.add("primary-replaced-attempt")
+				}
+				if rec.late {
+					cls.add("late-reply")
+				}
+			}
+
+			// ---- oracle 2a: a new header above the trusted range needs a second provider with the identical header
+			unconfirmed := false
+			for _, b := range fresh {
+				if b.Height < firstBefore {
+					cls.add("stored:backwards")
+					if rf.expired(before[firstBefore], c.now) {
+						cls.add("stored:backwards-from-expired")
+					}
+					continue
+				}
+				who := map[int]bool{}
+				asWitness := false
+				for _, rec := range recs {
+					if rec.lb != nil && !rec.late && hkey(rec.lb) == hkey(b) {
+						who[rec.prov] = true
+						if rec.origin == "compare" {
+							asWitness = true
+						}
+					}
+				}
+				if !asWitness {
+					unconfirmed = true
+					sig := false // signature of the known finding: a witness answered the comparison with another header
+					for _, v := range verd {
+						if v == "conflict" {
+							sig = true
+						}
+					}
+					if sig && lib.IsKnown(findingConflictThenNil) {
+						lib.ObservedKnown(findingConflictThenNil)
+						lib.ExcludedByKnown(findingConflictThenNil)
+						cls.add("known:conflict-then-nil")
+						continue
+					}
+					t.Fatalf("WITNESS RULE: header %d/%X was stored as trusted although no witness returned it during the call (witness verdicts: %v; a witness answered with another header: %v)\n%s",
+						b.Height, b.Hash(), verd, sig, desc)
+				}
+				if len(who) < 2 {
+					// the only witness that confirmed the header is the provider that supplied it as primary earlier in the
+					// same call (it was demoted to witness after a benign error on an intermediate height)
+					cls.add("observation:confirmed-only-by-its-own-source")
+				}
+				if b.Height > lastBefore {
+					cls.add("stored:forward")
+				} else {
+					cls.add("stored:between")
+				}
+			}
+			_ = unconfirmed
+
+			// ---- oracle 2b: a witness that can back a different header => ErrLightClientAttack
+			var s *types.LightBlock // the trusted block verification of tH starts from
+			if tH > 0 && firstBefore > 0 && tH > firstBefore {
+				if tH > lastBefore {
+					s = before[lastBefore]
+				} else {
+					for h := tH - 1; h >= firstBefore; h-- {
+						if b, ok := before[h]; ok {
+							s = b
+							break
+						}
+					}
+				}
+			}
+			isAttack := errors.Is(err, light.ErrLightClientAttack)
+			var backers []int
+			if s != nil {
+				for _, rec := range recs {
+					// late replies count too: the client must not stop listening while a witness it asked has not answered
+					if rec.origin != "compare" || rec.lb == nil || rec.lb.Height != tH || pHashes[hkey(rec.lb)] || len(pHashes) == 0 {
+						continue
+					}
+					n := ep.nodes[rec.prov]
+					if n.static(s.Height, tH) && rf.adjacentConsistent(n.view, s, rec.lb, c.now) {
+						backers = append(backers, rec.prov)
+					}
+				}
+			}
+			if len(backers) > 0 {
+				cls.add("backed-conflict")
+				if !isAttack {
+					sig := false
+					for p, v := range verd {
+						if v == "conflict" && !containsInt(backers, p) {
+							sig = true
+						}
+					}
+					if sig && lib.IsKnown(findingConflictThenNil) {
+						lib.ObservedKnown(findingConflictThenNil)
+						lib.ExcludedByKnown(findingConflictThenNil)
+					} else {
+						t.Fatalf("WITNESS RULE: witness(es) %v returned a different header for height %d and serve a chain that proves it from trusted height %d, but the call returned %v instead of ErrLightClientAttack (verdicts %v)\n%s",
+							backers, tH, s.Height, err, verd, desc)
+					}
+				}
+			}
+
+			// ---- oracle 2c: an attack error comes with evidence
+			if isAttack {
+				cls.add("outcome:attack")
+				checkEvidence(t, ep, w, rf, cl, evs, recs, s, tH, c.now, desc, cls)
+				if len(fresh) > 0 {
+					t.Fatalf("attack reported but header(s) %v were stored\n%s", heightsOf(fresh), desc)
+				}
+			}
+
+			// ---- result consistency
+			if err == nil && c.kind != "update" && tH >= 1 {
+				b, ok := stored[tH]
+				if !ok {
+					t.Fatalf("call succeeded but height %d is not in the trusted store\n%s", tH, desc)
+				}
+				if ret != nil && hkey(ret) != hkey(b) {
+					t.Fatalf("call returned header %X but the store holds %X at height %d\n%s", ret.Hash(), b.Hash(), tH, desc)
+				}
+				if hdr != nil && !bytes.Equal(hdr.Hash(), b.Hash()) {
+					t.Fatalf("VerifyHeader succeeded for %X but the store holds %X\n%s", hdr.Hash(), b.Hash(), desc)
+				}
+			}
+			if err == nil && c.kind == "update" && ret != nil {
+				if b, ok := stored[ret.Height]; !ok || hkey(b) != hkey(ret) {
+					t.Fatalf("Update returned a header that is not stored\n%s", desc)
+				}
+			}
+
+			// ---- oracle 3: completeness with honest providers
+			if allHonest {
+				for _, b := range stored {
+					if !isGenuine(b) {
+						t.Fatalf("completeness: honest providers but stored header %d is not the genuine one\n%s", b.Height, desc)
+					}
+				}
+				want, known := true, true
+				h := tH
+				if c.kind == "update" {
+					h = L
+				}
+				switch {
+				case h > L:
+					want = false
+				case before[h] != nil:
+					want = true
+					if c.kind == "update" {
+						known = false
+					}
+				case h < firstBefore:
+					want = true
+				default:
+					var from *types.LightBlock
+					for x := h - 1; x >= 1; x-- {
+						if b, ok := before[x]; ok {
+							from = b
+							break
+						}
+					}
+					want = from != nil && !rf.expired(from, c.now) && w.T(h).Before(c.now.Add(drift))
+				}
+				if c.kind == "update" && h <= lastBefore {
+					known = false // nothing to do
+				}
+				if known && want && err != nil {
+					t.Fatalf("completeness: honest providers, target %d verifiable, but the call failed: %v\n%s", h, err, desc)
+				}
+				if known && !want && err == nil && c.kind != "update" {
+					t.Fatalf("honest providers, target %d must not be verifiable at this time, but the call succeeded\n%s", h, desc)
+				}
+				cls.add(fmt.Sprintf("honest:verifiable=%v", want))
+			}
+
+			for _, b := range fresh {
+				trusted[hkey(b)] = b
+			}
+			oc := outcomeClass(err)
+			cls.add("outcome:" + oc)
+			cls.add("call:" + c.kind)
+			if s != nil && rf.expired(s, c.now) {
+				cls.add("trusted-expired-at-call")
+			}
+			if g := w.g[tH]; g != nil && !g.Time.Before(c.now.Add(drift)) {
+				cls.add("target-from-future")
+			}
+			outcomes = append(outcomes, fmt.Sprintf("%s:%d:%s:%v", c.kind, c.height, oc, sortedVerdicts(verd)))
 		}
-		pv, hg := ep.run(f, order)
+	}
+	if initErr == nil {
+		runCalls(primary, calls)
+	}
+
+	// ---- further client lifetimes on the same database: restart (the store is re-opened with dbs.New, as `tendermint
+	// light` does on every start, or - rarely - the same store object is reused), new trust options (same root, a
+	// lower one = roll-back, the stored tip, a higher one), possibly another provider as primary. A lifetime starts
+	// "from its trust root": right after NewClient nothing above the root can be trusted (this client has not made
+	// a single verification step yet), and older headers may only stay if the new trust options vouch for the
+	// highest of them.
+	nLives := rapid.SampledFrom([]int{1, 1, 1, 2, 2, 2, 3}).Draw(t, "lives")
+	now = lastNow
+	for life := 2; life <= nLives; life++ {
+		reopen := rapid.IntRange(0, 4).Draw(t, "reopen") != 0
+		if reopen {
+			st = dbs.New(db, w.chainID)
+			cls.add("restart:store-reopened")
+		} else {
+			cls.add("restart:same-store-object")
+		}
+		old := scanStore(st, maxH)
+		checkStore(t, st, db, w.chainID, old, maxH, rapid.IntRange(0, 2).Draw(t, "pruneProbe") == 0, rapid.IntRange(0, len(old)+1).Draw(t, "pruneTo"), fmt.Sprintf("before lifetime %d (reopened=%v)", life, reopen))
+		oldLo, oldHi := minmax(old)
+		r2 := r
+		rootMode := rapid.SampledFrom([]string{"same", "same", "lower", "stored-tip", "higher", "any"}).Draw(t, "root2")
+		switch rootMode {
+		case "lower":
+			r2 = rapid.Int64Range(1, r).Draw(t, "root2.h")
+		case "stored-tip":
+			if oldHi >= 1 && oldHi <= L {
+				r2 = oldHi
+			}
+		case "higher":
+			lo := oldHi + 1
+			if lo < 1 || lo > L {
+				lo = L
+			}
+			r2 = rapid.Int64Range(lo, L).Draw(t, "root2.h")
+		case "any":
+			r2 = rapid.Int64Range(1, L).Draw(t, "root2.h")
+		}
+		root2 := w.g[r2]
+		// roles: usually as before, sometimes another provider becomes the primary
+		prim2 := primary
+		if rapid.IntRange(0, 3).Draw(t, "rotate") == 0 {
+			prim2 = ep.nodes[rapid.IntRange(0, len(ep.nodes)-1).Draw(t, "primary2")]
+		}
+		var provs2 []provider.Provider
+		for _, n := range ep.nodes {
+			if n != prim2 {
+				provs2 = append(provs2, n)
+			}
+		}
+		callNo++
+		ep.mu.Lock()
+		ep.call = callNo
+		logStart := len(ep.log)
+		ep.mu.Unlock()
+		var err2 error
+		pv, hg := ep.run(func() {
+			cl, err2 = light.NewClient(ep.ctx, w.chainID, light.TrustOptions{Period: period, Height: r2, Hash: root2.Hash()}, prim2, provs2, st, opts...)
+		}, order)
 		if pv != nil {
-			t.Fatalf("call %d (%s %d) panicked: %v", k, c.kind, c.height, pv)
+			t.Fatalf("NewClient (lifetime %d) panicked: %v", life, pv)
 		}
 		if hg != nil {
-			t.Fatalf("call %d (%s %d): %s", k, c.kind, c.height, hg.what)
+			t.Fatalf("NewClient (lifetime %d): %s", life, hg.what)
 		}
 		stored = scanStore(st, maxH)
-		if dup := primaryAmongWitnesses(cl); dup != "" {
-			// from here on the client would cross-check this provider against itself
-			if lib.IsKnown(findingPrimaryIsWitness) {
-				lib.ObservedKnown(findingPrimaryIsWitness)
-				lib.ExcludedByKnown(findingPrimaryIsWitness)
-				cls.add("known:primary-is-witness")
-				outcomes = append(outcomes, "primary-is-witness")
-				break
-			}
-			t.Fatalf("WITNESS RULE: after call %d (%s %d, err=%v) provider %s is the primary AND one of the witnesses: every later header is 'confirmed' by the provider that supplied it\nprimary=%s witnesses=%v",
-				k, c.kind, c.height, err, dup, pkind, wkinds)
-		}
 		ep.mu.Lock()
 		recs := append([]callRec(nil), ep.log[logStart:]...)
-		evs := append([]evRec(nil), ep.evs[evStart:]...)
 		ep.mu.Unlock()
-		U := universe()
-		desc := dumpRecs(recs) + fmt.Sprintf("call %d %s(h=%d) mode=%s level=%d/%d now=T(%d)%+v period=%v drift=%v root=%d primary=%s witnesses=%v forks=%v -> err=%v",
-			k, c.kind, c.height, mode, num, den, L, c.now.Sub(w.T(L)), period, drift, r, pkind, wkinds, forkNotes, err)
-
-		// target height of this call
-		tH := c.height
-		if c.kind == "update" {
-			tH = 0
+		lifeDesc = fmt.Sprintf("lifetime %d: store reopened=%v, held heights %v, trust root %d (%s), primary node%d\n", life, reopen, heightsOfMap(old), r2, rootMode, prim2.id)
+		cls.add("restart-root:" + rootMode)
+		switch {
+		case oldHi < 0:
+			cls.add("restart:on-empty-store")
+		case r2 < oldHi:
+			cls.add("restart:roll-back")
+		case r2 == oldHi:
+			cls.add("restart:root-at-stored-tip")
+		default:
+			cls.add("restart:root-above-stored-tip")
+		}
+		_ = oldLo
+		if err2 != nil {
+			cls.add("restart-init:fail")
+			outcomes = append(outcomes, fmt.Sprintf("life%d:%s:%d:init-fail", life, rootMode, r2))
+			if allHonest {
+				t.Fatalf("completeness: NewClient (lifetime %d) with honest providers failed: %v\n%s", life, err2, lifeDesc)
+			}
+			continue
+		}
+		cls.add("restart-init:ok")
+		desc := dumpRecs(recs) + lifeDesc
+		// rule 1: the trust root is stored
+		if b, ok := stored[r2]; !ok || hkey(b) != hkey(root2) {
+			t.Fatalf("RESTART: NewClient succeeded but the store does not hold the trust root at height %d\n%s", r2, desc)
+		}
+		// rule 2: nothing above the root
+		// rule 3: older headers only if they were trusted before and the options vouch for the highest of them
+		var hstar *types.LightBlock
+		for h, b := range old {
+			if h <= r2 && (hstar == nil || h > hstar.Height) {
+				hstar = b
+			}
+		}
+		vouched := false
+		if hstar != nil {
+			vouched = hkey(hstar) == hkey(root2)
 			for _, rec := range recs {
-				if rec.origin == "main" && rec.height == 0 && rec.lb != nil {
-					tH = rec.lb.Height
-					break
-				}
-			}
-		} else if hdr != nil {
-			tH = hdr.Height
-		}
-
-		// ---- oracle 1: store soundness
-		var fresh []*types.LightBlock
-		for _, b := range stored {
-			if _, ok := trusted[hkey(b)]; !ok {
-				fresh = append(fresh, b)
-			}
-		}
-		sort.Slice(fresh, func(i, j int) bool { return fresh[i].Height < fresh[j].Height })
-		tl := make([]*types.LightBlock, 0, len(trusted))
-		for _, b := range trusted {
-			tl = append(tl, b)
-		}
-		sort.Slice(tl, func(i, j int) bool { return fullKey(tl[i]) < fullKey(tl[j]) })
-		for _, b := range fresh {
-			inU := false
-			for _, u := range U {
-				if hkey(u) == hkey(b) {
-					inU = true
-				}
-			}
-			if !inU {
-				t.Fatalf("SOUNDNESS: stored header %d/%X was never returned by any provider\n%s", b.Height, b.Hash(), desc)
-			}
-			reached := rf.reach(tl, U, c.now, hkey(b))
-			if _, ok := reached[hkey(b)]; !ok {
-				why := ""
-				for _, a := range tl {
-					if b.Height > a.Height {
-						why += fmt.Sprintf("\n  from trusted %d: %s", a.Height, rf.forward(a, b, c.now))
-					}
-				}
-				t.Fatalf("SOUNDNESS: header %d/%X (genuine=%v) is in the trusted store but no chain of valid verification steps leads to it from the trusted headers %v over the %d light blocks the providers returned%s\n%s",
-					b.Height, b.Hash(), isGenuine(b), heightsOf(tl), len(U), why, desc)
-			}
-			if !isGenuine(b) {
-				cls.add("forged-header-trusted-within-model")
-			}
-			if rf.ownQuorum(b) != nil {
-				cls.add("stored-commit-unverified(backwards)")
-			}
-		}
-
-		// ---- verdicts of the witnesses in this call (for classes)
-		pHashes := map[string]bool{}
-		for _, rec := range recs {
-			if rec.origin == "main" && rec.lb != nil && rec.lb.Height == tH {
-				pHashes[hkey(rec.lb)] = true
-			}
-			if rec.lb != nil && !isGenuine(rec.lb) {
-				forgedServed = true
-			}
-		}
-		verd := map[int]string{}
-		for _, rec := range recs {
-			if rec.origin != "compare" || rec.late {
-				continue
-			}
-			v := "err:" + errClass(rec.err)
-			if rec.lb != nil {
-				switch {
-				case rec.lb.Height != tH:
-					v = "other-height"
-				case pHashes[hkey(rec.lb)]:
-					v = "match"
-				default:
-					v = "conflict"
-				}
-			}
-			verd[rec.prov] = v
-		}
-		vs := map[string]bool{}
-		for _, v := range verd {
-			vs[v] = true
-			cls.add("verdict:" + v)
-		}
-		if len(vs) >= 2 {
-			verdictMixed = true
-		}
-		for _, rec := range recs {
-			if rec.origin == "findprimary" {
-				cls.add("primary-replaced-attempt")
-			}
-			if rec.late {
-				cls.add("late-reply")
-			}
-		}
-
-		// ---- oracle 2a: a new header above the trusted range needs a second provider with the identical header
-		unconfirmed := false
-		for _, b := range fresh {
-			if b.Height < firstBefore {
-				cls.add("stored:backwards")
-				if rf.expired(before[firstBefore], c.now) {
-					cls.add("stored:backwards-from-expired")
-				}
-				continue
-			}
-			who := map[int]bool{}
-			asWitness := false
-			for _, rec := range recs {
-				if rec.lb != nil && !rec.late && hkey(rec.lb) == hkey(b) {
-					who[rec.prov] = true
-					if rec.origin == "compare" {
-						asWitness = true
-					}
-				}
-			}
-			if !asWitness {
-				unconfirmed = true
-				sig := false // signature of the known finding: a witness answered the comparison with another header
-				for _, v := range verd {
-					if v == "conflict" {
-						sig = true
-					}
-				}
-				if sig && lib.IsKnown(findingConflictThenNil) {
-					lib.ObservedKnown(findingConflictThenNil)
-					lib.ExcludedByKnown(findingConflictThenNil)
-					cls.add("known:conflict-then-nil")
-					continue
-				}
-				t.Fatalf("WITNESS RULE: header %d/%X was stored as trusted although no witness returned it during the call (witness verdicts: %v; a witness answered with another header: %v)\n%s",
-					b.Height, b.Hash(), verd, sig, desc)
-			}
-			if len(who) < 2 {
-				// the only witness that confirmed the header is the provider that supplied it as primary earlier in the
-				// same call (it was demoted to witness after a benign error on an intermediate height)
-				cls.add("observation:confirmed-only-by-its-own-source")
-			}
-			if b.Height > lastBefore {
-				cls.add("stored:forward")
-			} else {
-				cls.add("stored:between")
-			}
-		}
-		_ = unconfirmed
-
-		// ---- oracle 2b: a witness that can back a different header => ErrLightClientAttack
-		var s *types.LightBlock // the trusted block verification of tH starts from
-		if tH > 0 && firstBefore > 0 && tH > firstBefore {
-			if tH > lastBefore {
-				s = before[lastBefore]
-			} else {
-				for h := tH - 1; h >= firstBefore; h-- {
-					if b, ok := before[h]; ok {
-						s = b
-						break
-					}
+				if rec.lb != nil && hkey(rec.lb) == hkey(hstar) {
+					vouched = true
 				}
 			}
 		}
-		isAttack := errors.Is(err, light.ErrLightClientAttack)
-		var backers []int
-		if s != nil {
-			for _, rec := range recs {
-				// late replies count too: the client must not stop listening while a witness it asked has not answered
-				if rec.origin != "compare" || rec.lb == nil || rec.lb.Height != tH || pHashes[hkey(rec.lb)] || len(pHashes) == 0 {
-					continue
-				}
-				n := ep.nodes[rec.prov]
-				if n.static(s.Height, tH) && rf.adjacentConsistent(n.view, s, rec.lb, c.now) {
-					backers = append(backers, rec.prov)
-				}
-			}
-		}
-		if len(backers) > 0 {
-			cls.add("backed-conflict")
-			if !isAttack {
-				sig := false
-				for p, v := range verd {
-					if v == "conflict" && !containsInt(backers, p) {
-						sig = true
-					}
-				}
-				if sig && lib.IsKnown(findingConflictThenNil) {
-					lib.ObservedKnown(findingConflictThenNil)
-					lib.ExcludedByKnown(findingConflictThenNil)
-				} else {
-					t.Fatalf("WITNESS RULE: witness(es) %v returned a different header for height %d and serve a chain that proves it from trusted height %d, but the call returned %v instead of ErrLightClientAttack (verdicts %v)\n%s",
-						backers, tH, s.Height, err, verd, desc)
-				}
-			}
-		}
-
-		// ---- oracle 2c: an attack error comes with evidence
-		if isAttack {
-			cls.add("outcome:attack")
-			checkEvidence(t, ep, w, rf, cl, evs, recs, s, tH, c.now, desc, cls)
-			if len(fresh) > 0 {
-				t.Fatalf("attack reported but header(s) %v were stored\n%s", heightsOf(fresh), desc)
-			}
-		}
-
-		// ---- result consistency
-		if err == nil && c.kind != "update" && tH >= 1 {
-			b, ok := stored[tH]
-			if !ok {
-				t.Fatalf("call succeeded but height %d is not in the trusted store\n%s", tH, desc)
-			}
-			if ret != nil && hkey(ret) != hkey(b) {
-				t.Fatalf("call returned header %X but the store holds %X at height %d\n%s", ret.Hash(), b.Hash(), tH, desc)
-			}
-			if hdr != nil && !bytes.Equal(hdr.Hash(), b.Hash()) {
-				t.Fatalf("VerifyHeader succeeded for %X but the store holds %X\n%s", hdr.Hash(), b.Hash(), desc)
-			}
-		}
-		if err == nil && c.kind == "update" && ret != nil {
-			if b, ok := stored[ret.Height]; !ok || hkey(b) != hkey(ret) {
-				t.Fatalf("Update returned a header that is not stored\n%s", desc)
-			}
-		}
-
-		// ---- oracle 3: completeness with honest providers
-		if allHonest {
-			for _, b := range stored {
-				if !isGenuine(b) {
-					t.Fatalf("completeness: honest providers but stored header %d is not the genuine one\n%s", b.Height, desc)
-				}
-			}
-			want, known := true, true
-			h := tH
-			if c.kind == "update" {
-				h = L
-			}
+		kept := 0
+		for h, b := range stored {
 			switch {
-			case h > L:
-				want = false
-			case before[h] != nil:
-				want = true
-				if c.kind == "update" {
-					known = false
-				}
-			case h < firstBefore:
-				want = true
+			case h == r2:
+			case h > r2:
+				t.Fatalf("RESTART: after NewClient with trust root %d the store still serves header %d/%X as trusted: this client has made no verification step from its root and no witness of it returned that header (held before the restart: %v)\n%s",
+					r2, h, b.Hash(), heightsOfMap(old), desc)
 			default:
-				var from *types.LightBlock
-				for x := h - 1; x >= 1; x-- {
-					if b, ok := before[x]; ok {
-						from = b
-						break
-					}
+				kept++
+				ob, was := old[h]
+				if _, tr := trusted[hkey(b)]; !was || hkey(ob) != hkey(b) || !tr {
+					t.Fatalf("RESTART: header %d/%X below the new trust root %d appeared in the store during NewClient\n%s", h, b.Hash(), r2, desc)
 				}
-				want = from != nil && !rf.expired(from, c.now) && w.T(h).Before(c.now.Add(drift))
+				if !vouched {
+					t.Fatalf("RESTART: header %d/%X of the earlier history is still trusted below the new root %d although neither the trust options nor any provider confirmed the highest earlier header %d/%X (held before the restart: %v)\n%s",
+						h, b.Hash(), r2, hstar.Height, hstar.Hash(), heightsOfMap(old), desc)
+				}
 			}
-			if c.kind == "update" && h <= lastBefore {
-				known = false // nothing to do
-			}
-			if known && want && err != nil {
-				t.Fatalf("completeness: honest providers, target %d verifiable, but the call failed: %v\n%s", h, err, desc)
-			}
-			if known && !want && err == nil && c.kind != "update" {
-				t.Fatalf("honest providers, target %d must not be verifiable at this time, but the call succeeded\n%s", h, desc)
-			}
-			cls.add(fmt.Sprintf("honest:verifiable=%v", want))
 		}
-
-		for _, b := range fresh {
+		if kept > 0 {
+			cls.add("restart:earlier-headers-kept")
+		} else if len(old) > 0 {
+			cls.add("restart:store-reset")
+		}
+		if dup := primaryAmongWitnesses(cl); dup != "" {
+			t.Fatalf("lifetime %d: provider %s is primary and witness", life, dup)
+		}
+		trusted = map[string]*types.LightBlock{}
+		for _, b := range stored {
 			trusted[hkey(b)] = b
 		}
-		oc := outcomeClass(err)
-		cls.add("outcome:" + oc)
-		cls.add("call:" + c.kind)
-		if s != nil && rf.expired(s, c.now) {
-			cls.add("trusted-expired-at-call")
+		// calls of this lifetime
+		n2 := rapid.IntRange(0, 2).Draw(t, "ncalls2")
+		calls2 := make([]apiCall, n2)
+		for i := range calls2 {
+			c := apiCall{kind: rapid.SampledFrom([]string{"height", "height", "height", "update", "header", "header-genuine"}).Draw(t, "callkind2")}
+			c.height = rapid.Int64Range(1, L+1).Draw(t, "h2")
+			if rapid.IntRange(0, 2).Draw(t, "later2") == 0 {
+				now = now.Add(rapid.SampledFrom([]time.Duration{1, time.Second, time.Hour}).Draw(t, "later2.d"))
+			}
+			c.now = now
+			calls2[i] = c
 		}
-		if g := w.g[tH]; g != nil && !g.Time.Before(c.now.Add(drift)) {
-			cls.add("target-from-future")
-		}
-		outcomes = append(outcomes, fmt.Sprintf("%s:%d:%s:%v", c.kind, c.height, oc, sortedVerdicts(verd)))
+		outcomes = append(outcomes, fmt.Sprintf("life%d:%s:%d:kept%d", life, rootMode, r2, kept))
+		runCalls(prim2, calls2)
 	}
+	cls.add(fmt.Sprintf("lifetimes:%d", nLives))
 
 	cls.add("mode:" + mode)
 	cls.add("tmpl:" + tmpl)
@@ -900,6 +1070,64 @@ func dumpRecs(recs []callRec) string {
 		s += fmt.Sprintf("  node%d %-11s h=%-3d -> %s%s\n", r.prov, r.origin, r.height, a, late)
 	}
 	return s
+}
+
+func heightsOfMap(m map[int64]*types.LightBlock) []int64 {
+	var hs []int64
+	for h := range m {
+		hs = append(hs, h)
+	}
+	sort.Slice(hs, func(i, j int) bool { return hs[i] < hs[j] })
+	return hs
+}
+
+// checkStore: what the store interface promises about a (re-opened) store, against a plain scan of it: Size() is
+// the number of stored light blocks, First/Last are the lowest/highest stored heights, and Prune(n) - tried on a copy
+// of the database - leaves exactly the min(n, size) highest light blocks.
+func checkStore(t *rapid.T, st store.Store, db dbm.DB, prefix string, held map[int64]*types.LightBlock, maxH int64, probePrune bool, pruneTo int, when string) {
+	lo, hi := minmax(held)
+	if int(st.Size()) != len(held) {
+		t.Fatalf("STORE %s: Size() = %d but the store holds %d light blocks %v", when, st.Size(), len(held), heightsOfMap(held))
+	}
+	if f, err := st.FirstLightBlockHeight(); err != nil || f != lo {
+		t.Fatalf("STORE %s: FirstLightBlockHeight() = %d, %v; lowest stored height is %d", when, f, err, lo)
+	}
+	if l, err := st.LastLightBlockHeight(); err != nil || l != hi {
+		t.Fatalf("STORE %s: LastLightBlockHeight() = %d, %v; highest stored height is %d", when, l, err, hi)
+	}
+	if !probePrune || len(held) == 0 {
+		return
+	}
+	clone := dbm.NewMemDB()
+	it, err := db.Iterator(nil, nil)
+	if err != nil {
+		t.Fatalf("VERIF-INFRA: iterator: %v", err)
+	}
+	for ; it.Valid(); it.Next() {
+		k, v := append([]byte(nil), it.Key()...), append([]byte(nil), it.Value()...)
+		if err := clone.Set(k, v); err != nil {
+			t.Fatalf("VERIF-INFRA: %v", err)
+		}
+	}
+	it.Close()
+	s2 := dbs.New(clone, prefix)
+	if err := s2.Prune(uint16(pruneTo)); err != nil {
+		t.Fatalf("STORE %s: Prune(%d): %v", when, pruneTo, err)
+	}
+	left := scanStore(s2, maxH)
+	want := pruneTo
+	if want > len(held) {
+		want = len(held)
+	}
+	hs := heightsOfMap(held)
+	if len(left) != want {
+		t.Fatalf("STORE %s: Prune(%d) of a re-opened store holding %v left %v", when, pruneTo, hs, heightsOfMap(left))
+	}
+	for _, h := range hs[len(hs)-want:] {
+		if _, ok := left[h]; !ok {
+			t.Fatalf("STORE %s: Prune(%d) of %v left %v (must keep the highest)", when, pruneTo, hs, heightsOfMap(left))
+		}
+	}
 }
 
 func primaryAmongWitnesses(cl *light.Client) string {
